@@ -120,11 +120,12 @@ def run(ctx):
     sampled = None
     for tag, depth, repl in passes:
         vectors, rows = model_and_replay(ctx, binary, tag, repl, matrix)
-        sampled = sampled or vectors
+        sampled = sampled or [v for v, r in zip(vectors, rows) if r["class"] == "ok"]
 
     # 3. M3: random sequences through the real code -> trace spec
     chunks, runs = (5, 300) if ctx.thorough else (1, 60)
     events = tr = None
+    trace_cfg = "TraceFlat.cfg"
     for k in range(chunks):
         trk = ctx.path("trace_%d.ndjson" % k)
         ctx.run_bin(binary, ["rt-trace", "--seed", ctx.seed * 1000 + k, "--runs", runs, "--maxops", 64, "--out", trk])
@@ -137,6 +138,8 @@ def run(ctx):
                              "re-validating the round trip on the real bytes only" % (matched + 1, json.dumps(first)[:200]))
             loose = cfg_variant(ctx, "TraceFlat.cfg", "TraceFlat_loose.cfg", [("CheckFormat = TRUE", "CheckFormat = FALSE")])
             ok, matched, total, first = ctx.tlc_trace("flat", "TraceFlat", loose, trk, timeout=3000)
+            if k == 0:
+                trace_cfg = loose
         ctx.cov["traces_validated_against_impl"] += runs
         ctx.cov["evaluations"] += total
         ctx.count("trace_events", total)
@@ -181,12 +184,12 @@ def run(ctx):
         part[idx]["v"] = (part[idx]["v"] + 1) % 256
         p1 = ctx.path("trace_corrupt.ndjson")
         vlib.write_ndjson(p1, part)
-        ok1, m1, _, _ = ctx.tlc_trace("flat", "TraceFlat", "TraceFlat.cfg", p1, count=False)
+        ok1, m1, _, _ = ctx.tlc_trace("flat", "TraceFlat", trace_cfg, p1, count=False)
         ctx.selftest("corrupt the decoded value of trace event %d" % (idx + 1), (not ok1) and m1 == idx, "matched %d" % m1)
         j = max(i for i in range(idx) if events[i]["ev"] == "enc")
         p2 = ctx.path("trace_dropped.ndjson")
         vlib.write_ndjson(p2, [e for i, e in enumerate(events[:end]) if i != j])
-        ok2, m2, _, _ = ctx.tlc_trace("flat", "TraceFlat", "TraceFlat.cfg", p2, count=False)
+        ok2, m2, _, _ = ctx.tlc_trace("flat", "TraceFlat", trace_cfg, p2, count=False)
         ctx.selftest("drop encoder event %d" % (j + 1), not ok2, "matched %d" % m2)
 
     return ctx.finish(
